@@ -184,8 +184,9 @@ func corpusVote(c *core.Case) {
 	signVote(k, sp.chain, v)
 	c.Run.Count("votes_signed", 1)
 	judgeVote(c, r, v, sp.chain, x, func(int) int { return pAll })
-	if c.I < 2 {
-		c.Run.Sample(map[string]interface{}{"kind": "vote", "group": c.Group, "case": c.I, "key": k.i, "vote": voteW(v, sp.chain)})
+	if c.I == 1 {
+		c.Run.Sample(map[string]interface{}{"kind": "vote", "group": c.Group, "case": c.I, "key": k.i, "vote": voteW(v, sp.chain),
+			"mutations_presented_with_this_signature": len(voteMutants(r, v, sp.chain, x)), "paths": "Vote.Verify, VoteFromProto+Verify, VoteSet.AddVote, VerifyCommit, VerifyDuplicateVote, DuplicateVoteEvidence.Verify"})
 	}
 }
 
@@ -257,7 +258,9 @@ func corpusTx(c *core.Case) {
 	r := fixedRand("tx", c.I)
 	k := allKeys()[c.I%nKeys]
 	c.Run.Count("txs_signed", 1)
-	judgeTx(c, r, sp.f.clone(), sp.sg, k, true)
+	sg := sp.sg
+	sg.Via = c.I
+	judgeTx(c, r, sp.f.clone(), sg, k, true)
 }
 
 // ---- random groups ----
@@ -285,9 +288,6 @@ func randVote(c *core.Case) {
 	rot := []int{pVoteSet, pCommit, pEvidence}
 	off := r.Intn(3)
 	judgeVote(c, r, v, chain, x, func(i int) int { return pVerify | pWire | rot[(i+off)%3] })
-	if c.I < 1 {
-		c.Run.Sample(map[string]interface{}{"kind": "vote", "group": c.Group, "case": c.I, "key": k.i, "vote": voteW(v, chain)})
-	}
 }
 
 func genProposal(r *rand.Rand) *types.Proposal {
@@ -313,11 +313,17 @@ func randTx(c *core.Case) {
 	k, _ := pickKeys(r)
 	specs := allSignerSpecs()
 	sg := specs[r.Intn(len(specs))]
+	sg.Via = r.Intn(4)
 	c.Run.Count("txs_signed", 1)
 	judgeTx(c, r, genTxF(r), sg, k, false)
 }
 
 // ---- cross-object reuse ----
+
+func pAcc(p *types.Proposal, chain string, proposer common.Address) bool {
+	acc, _ := proposalAccepts(p, chain, proposer, true)
+	return len(acc) > 0
+}
 
 func crossCase(c *core.Case) {
 	run := c.Run
@@ -381,7 +387,7 @@ func crossCase(c *core.Case) {
 			p := *prop
 			p.POLRound = pol
 			p.Signature = sig
-			chk(name+"-sig-on-proposal", "a vote signature verifies on a proposal with the same height/round/block/time", len(proposalAccepts(&p, chain, k.addr, true)) > 0)
+			chk(name+"-sig-on-proposal", "a vote signature verifies on a proposal with the same height/round/block/time", pAcc(&p, chain, k.addr))
 		}
 	}
 	// another chain
@@ -391,14 +397,17 @@ func crossCase(c *core.Case) {
 		}
 		a, by = anyAcc(com, alt.chain)
 		chk("vote-on-other-chain", fmt.Sprintf("a precommit signed for chain %q verifies under chain %q: %s", chain, alt.chain, by), a)
-		chk("proposal-on-other-chain", fmt.Sprintf("a proposal signed for chain %q verifies under chain %q", chain, alt.chain), len(proposalAccepts(prop, alt.chain, k.addr, true)) > 0)
+		chk("proposal-on-other-chain", fmt.Sprintf("a proposal signed for chain %q verifies under chain %q", chain, alt.chain), pAcc(prop, alt.chain, k.addr))
 	}
 	// another signer: the helper's slot / address with k's signature
 	m := com.Copy()
 	m.ValidatorAddress, m.ValidatorIndex = h.addr, x.idxH
 	acc, _ := x.accepts(r, m, chain, pAll, h.addr)
 	chk("vote-under-other-signer", fmt.Sprintf("a precommit signed by key %d verifies as a vote of key %d: %v", k.i, h.i, acc), len(acc) > 0)
-	chk("proposal-under-other-signer", "a proposal verifies for another proposer", len(proposalAccepts(prop, chain, h.addr, true)) > 0)
+	if ca, ok := x.commitAccepts(com, chain, h.addr); ok {
+		chk("precommit-in-other-validators-commit-slot", "a precommit of one validator is accepted by VerifyCommit in another validator's slot", ca)
+	}
+	chk("proposal-under-other-signer", "a proposal verifies for another proposer", pAcc(prop, chain, h.addr))
 	// a second signer's honest vote for the same content carries a different signature and does not verify for k
 	hv := mkVote(kproto.PrecommitType)
 	hv.ValidatorAddress, hv.ValidatorIndex = h.addr, x.idxH
@@ -408,7 +417,7 @@ func crossCase(c *core.Case) {
 	f := genTxF(r)
 	for _, e := range []nsig{{"precommit", com.Signature}, {"proposal", prop.Signature}} {
 		name, sig := e.name, e.sig
-		for _, sg := range []signerSpec{{Kind: skHomestead}, {skChainID, txChains[r.Intn(len(txChains))]}} {
+		for _, sg := range []signerSpec{{Kind: skHomestead}, {Kind: skChainID, Chain: txChains[r.Intn(len(txChains))]}} {
 			tx, err := unsignedTx(f).WithSignature(sg.real(), sig)
 			if err != nil {
 				continue
